@@ -3,7 +3,8 @@
 From Coq Require Import List ZArith NArith Bool Arith String.
 Import ListNotations.
 From DD Require Import Base.Sx Base.PyStr Base.Value Diff.Tree Diff.DiffModel Diff.DiffShow Hash.HashModel
-  Lfu.LfuModel DiffIO.DiffIOModel DiffIO.DiffIOShow DiffIO.MemoModel DiffIO.MemoShow DiffIO.DiffIOCache.
+  Lfu.LfuModel DiffIO.DiffIOModel DiffIO.DiffIOShow DiffIO.MemoModel DiffIO.MemoShow DiffIO.DiffIOCache
+  DiffIO.MemoPairs DiffIO.MemoPairsShow.
 Local Open Scope string_scope.
 
 (* the memoised pairs call of each level (absent = the code makes no call there) *)
@@ -39,3 +40,37 @@ Definition check_o (ud : list (pystr * pystr * pystr)) (c : cfg) (rep : bool)
            (ps : list (path * list (nat * nat))) (t1 t2 : value) : sx :=
   sx_bool (sx_eqb (sx_io (diff_io_o hexhash (tbl_udiff ud) no_paths no_paths c rep (tbl_pairs ps) t1 t2 [] []))
                   (sx_io (diff_io hexhash (tbl_udiff ud) no_paths no_paths c rep (tbl_pairs ps) t1 t2 [] []))).
+
+(* ---- the whole run with the pairing of every level COMPUTED by the pairs model (MemoPairs.v) ----
+   the memoised call of a level is [pairs_call] on the level's hashes (numbers), its distance calls' nested runs are
+   looked up among the recorded children; [dec]: the dictionary (hash -> hash) becomes index pairs through the level's
+   tables  added hash -> first index in t2,  removed hash -> first index in t1 *)
+Local Open Scope Z_scope.
+Definition pcall_v (dk : list (Z * Z * Z)) (pk : list (list Z * list Z * Z)) (cutoff : Z)
+           (nest : list (Z * Z * prog (mval Z Z))) (pre : option (list (Z * Z * Z))) (adds rems : list Z) : prog (mval Z Z) :=
+  pairs_call Z Z Z.eqb Z.ltb Z.eqb (tbl_dkey dk) (tbl_pkey pk) (tbl_nested nest) (fun _ _ => pre) cutoff 0 adds rems (fun v => Ret v).
+
+Definition tbl_pp2 (t : list (path * prog (mval Z Z))) (p : path) : prog (mval Z Z) :=
+  match find (fun x => path_eqb (fst x) p) t with Some x => snd x | None => Ret (VD 0) end.
+Definition zassoc {B : Type} (k : Z) (l : list (Z * B)) : option B :=
+  match find (fun x => Z.eqb (fst x) k) l with Some x => Some (snd x) | None => None end.
+Definition tbl_dec2 (t : list (path * list (Z * nat) * list (Z * nat))) (p : path) (v : mval Z Z) : list (nat * nat) :=
+  match find (fun x => path_eqb (fst (fst x)) p) t, v with
+  | Some (_, addj, remi), VP ps =>
+      flat_map (fun aj => match zassoc (fst aj) ps with
+                          | Some r => match zassoc r remi with Some i => [(snd aj, i)] | None => [] end
+                          | None => []
+                          end) addj
+  | _, _ => []
+  end.
+Definition sx_log2 (lg : list (event (mval Z Z))) : sx :=
+  SL (map (fun e => SL [SZ (fst (fst e)); sx_nat (snd (fst e)); sx_mval (snd e)]) lg).
+
+Definition run_st2 (ud : list (pystr * pystr * pystr)) (c : cfg) (rep : bool) (cap : nat) (sched : list bool)
+           (pps : list (path * prog (mval Z Z))) (decs : list (path * list (Z * nat) * list (Z * nat))) (t1 t2 : value) : sx :=
+  let '(r, _, lg) := run_diff_io_st hexhash (tbl_udiff ud) no_paths no_paths c rep (mval Z Z) (sched_of sched)
+                       (tbl_pp2 pps) (tbl_dec2 decs) t1 t2 (mkM (empty cap) 0) in
+  SL [sx_io r; sx_log2 lg].
+Definition run_st2_result (ud : list (pystr * pystr * pystr)) (c : cfg) (rep : bool) (cap : nat) (sched : list bool)
+           (pps : list (path * prog (mval Z Z))) (decs : list (path * list (Z * nat) * list (Z * nat))) (t1 t2 : value) : sx :=
+  match run_st2 ud c rep cap sched pps decs t1 t2 with SL (r :: _) => SL [r] | x => x end.
